@@ -52,10 +52,56 @@ the same 64 bytes -/
 theorem only_value_error_peFindMagicPe (f : PyFile) : NeverRaises (peFindMagicPe f) :=
   findMagicPe_ok f (some 0) MAXRANGE
 
-/-- `find_stage_prepend_append`: `fh.seek(mz_offset + SizeOfHeaders + Σ SizeOfRawData)` is a sum of unsigned fields
-(far beyond the end of the data is allowed: the read returns `b""`) -/
-theorem only_value_error_peFindStagePrependAppend (f : PyFile) : NeverRaises (peFindStagePrependAppend f) :=
+/-- `find_stage_prepend_append` on a file object whose `seek` accepts every non-negative offset (the `PyFile` model;
+io.BytesIO up to 2^63): `fh.seek(mz_offset + SizeOfHeaders + Σ SizeOfRawData)` is a sum of unsigned fields, far beyond
+the end of the data is allowed (the read returns `b""`).  For real files see `…_full` / `…_partial` below. -/
+theorem only_value_error_peFindStagePrependAppend_unlimited (f : PyFile) : NeverRaises (peFindStagePrependAppend f) :=
   findStagePrependAppend_ok f (some 0) MAXRANGE
+
+/-- **Full statement — does NOT hold for the code as it stands.**  `L` = largest offset `lseek` accepts on the file
+system that holds an OS file (ext4 with 4 KiB blocks: `2^44 - 4096`, measured; every seek of the other entry points
+stays below `2^34`). -/
+def only_value_error_peFindStagePrependAppend_full : Prop :=
+  ∀ (L : Nat) (f : PyFile), 2 ^ 34 ≤ L → NeverRaises (peFindStagePrependAppendL L f)
+
+/-- a 512-byte image: DOS header (`e_lfanew = 64`), `PE\0\0`, i386 file header with 5 sections, zeroed optional header,
+5 section headers with `SizeOfRawData = 0xFFFFFFFF` -/
+def ppaWitness : Bytes :=
+  [0x4d, 0x5a] ++ List.replicate 58 0 ++ [64, 0, 0, 0] ++ [0x50, 0x45, 0, 0] ++
+  [0x4c, 0x01, 5, 0] ++ List.replicate 12 0 ++ [224, 0, 0x02, 0x21] ++ List.replicate 224 0 ++
+  (List.replicate 5 (List.replicate 16 0 ++ [0xff, 0xff, 0xff, 0xff] ++ List.replicate 20 0)).flatten
+
+/-- the witness: on an OS file whose file system ends at 16 GiB the final `fh.seek(mz_offset + size)` is rejected and
+`OSError` escapes (on io.BytesIO the same bytes give `(None, None)`).  The real library on the sandbox's ext4 needs 4096
+sections for the same effect (`/tmp/C08/demo_ppa_oserror.py`; finding `C08-ppa-seek-beyond-fs-limit`). -/
+theorem ppaWitness_raises :
+    peFindStagePrependAppendL (2 ^ 34) ⟨ppaWitness, 0, .osFile⟩ = .error .osError ∧
+    peFindStagePrependAppendL (2 ^ 34) ⟨ppaWitness, 0, .bytesIO⟩ = .ok (none, none) := by decide +kernel
+
+theorem only_value_error_peFindStagePrependAppend_full_fails : ¬ only_value_error_peFindStagePrependAppend_full := by
+  intro h
+  obtain ⟨r, hr⟩ := h (2 ^ 34) ⟨ppaWitness, 0, .osFile⟩ (Nat.le_refl _)
+  rw [ppaWitness_raises.1] at hr
+  cases hr
+
+/-- **What is proved instead**: never raises on io.BytesIO, and on an OS file that is too short to hold the section
+headers needed to push `mz_offset + size` beyond `L` (ext4: files below 163 760 bytes). -/
+theorem only_value_error_peFindStagePrependAppend_partial (L : Nat) (f : PyFile)
+    (h : f.kind = .bytesIO ∨ f.data.length + 4294967296 * (f.data.length / 40 + 1) ≤ L) :
+    NeverRaises (peFindStagePrependAppendL L f) :=
+  findStagePrependAppendL_ok L f h
+
+/-- the excluding hypothesis is satisfied by every file below 163 760 bytes on ext4 -/
+theorem ext4_short_files_safe (f : PyFile) (h : f.data.length < 163760) :
+    NeverRaises (peFindStagePrependAppendL ext4MaxOffset f) := by
+  apply only_value_error_peFindStagePrependAppend_partial
+  right
+  unfold ext4MaxOffset
+  omega
+
+/-- the refined model with an unlimited seek is the C18 model (so the copy in `Model/C08.lean` cannot drift) -/
+theorem prependAppendAtG_is_C18 (f : PyFile) (o : Nat) :
+    prependAppendAtG PyFile.seekSet f o = C18.prependAppendAt f o := rfl
 
 /-- `XorEncodedFile.from_file`: a view, or the documented ValueError -/
 theorem only_value_error_xorEncodedFromFile (B : Nat) (f : PyFile) : OkOrValueError (xorEncodedFromFile B f) :=
@@ -88,20 +134,22 @@ theorem never_diverges_fromFile (B : Nat) (hB : 1 ≤ B) (f : PyFile) (ks : List
 PE helper returns its documented not-found value (`None`, `(None, None)`) -/
 theorem not_found_values_pe (f : PyFile) (h : C18.NoEarlierCandidate f.data 0 MAXRANGE MAXRANGE) :
     peFindMzOffset f = .ok none ∧ peFindArchitecture f = .ok none ∧ peFindCompileStamps f = .ok (none, none) ∧
-    peFindMagicMz f = .ok none ∧ peFindMagicPe f = .ok none ∧ peFindStagePrependAppend f = .ok (none, none) := by
+    peFindMagicMz f = .ok none ∧ peFindMagicPe f = .ok none ∧ peFindStagePrependAppend f = .ok (none, none) ∧
+    (∀ L, peFindStagePrependAppendL L f = .ok (none, none)) := by
   have hmz := C18.mz_offset_none f 0 MAXRANGE h
   have harch := findArchitecture_none f 0 MAXRANGE h
   rcases hr : C18.findMzOffset f (some 0) MAXRANGE with ⟨r, f1⟩
   rw [hr] at hmz
   simp only at hmz
   subst hmz
-  refine ⟨?_, ?_, ?_, ?_, ?_, ?_⟩
+  refine ⟨?_, ?_, ?_, ?_, ?_, ?_, ?_⟩
   · simp only [peFindMzOffset, hr]
   · simp only [peFindArchitecture, harch]
   · simp only [peFindCompileStamps, C18.findCompileStamps, hr]
   · simp only [peFindMagicMz, C18.findMagicMz, hr]
   · simp only [peFindMagicPe, C18.findMagicPe, hr]
   · simp only [peFindStagePrependAppend, C18.findStagePrependAppend, hr]
+  · intro L; unfold peFindStagePrependAppendL; rw [hr]
 
 /-- the ArtifactKit scanner on a file without a matching header yields nothing (an empty iterator, no exception) -/
 theorem not_found_values_artifactkit (f : PyFile) (h : C15.artifactOffsets f.data 0 none = []) :
@@ -173,6 +221,17 @@ theorem not_found_values_fromFile (B : Nat) (hB : 1 ≤ B) (f : PyFile) (ks : Li
   simp only [hs]
   rw [C17.no_match_valueError _ B hg]
 
+/-- **not_found_values** (DESIGN §C08): the documented "nothing found" result of every scanning entry point
+(`from_file`: `not_found_values_fromFile`; `parse_raw_http` has no such value, see C16 `malformed_rejected`) -/
+theorem not_found_values (B : Nat) (f : PyFile) :
+    (C18.NoEarlierCandidate f.data 0 MAXRANGE MAXRANGE →
+      peFindMzOffset f = .ok none ∧ peFindArchitecture f = .ok none ∧ peFindCompileStamps f = .ok (none, none) ∧
+      peFindMagicMz f = .ok none ∧ peFindMagicPe f = .ok none ∧ peFindStagePrependAppend f = .ok (none, none) ∧
+      (∀ L, peFindStagePrependAppendL L f = .ok (none, none))) ∧
+    (C15.artifactOffsets f.data 0 none = [] → iterArtifactkitPayloads f = .ok []) ∧
+    (f.data.length ≤ 8 → xorEncodedFromFile B f = .error .valueError) :=
+  ⟨not_found_values_pe f, not_found_values_artifactkit f, (not_found_values_xorEncoded B f).2⟩
+
 /-! ### no unbounded looping: sizes of what the scanning loops can produce
 
 Every loop of the composed models is either a structural recursion over `List.range maxrange` (the 1024-step scans of
@@ -201,6 +260,20 @@ theorem artifact_scan_bound (f : PyFile) (hits : List C15.Hit) (h : iterArtifact
   rw [← h]
   simp only [C15.artifactHits, List.length_map, C15.artifactOffsets]
   exact Nat.le_trans (List.length_filter_le _ _) (by simp)
+
+/-- the XorEncoded detector tries at most one nonce-offset candidate per `ff ff ff` marker hit and per size-consistent
+offset, and there are at most `maxrange` of the latter; each candidate costs one bounded (`maxrange`-step) MZ search.
+(This is the measured worst case of the real library: ~1000 markers in the first KiB ⇒ ~10^6 struct reads, ≈ 20 s per
+`XorEncodedFile.from_file` call, independent of the file size.) -/
+theorem detector_candidates_bound (f : PyFile) (maxrange : Nat) (hits l : List Nat) (f1 : PyFile)
+    (h : C09.iterNonceOffsets f none maxrange = .ok (l, f1)) :
+    (C09.candidates hits l).length ≤ hits.length + maxrange := by
+  have h1 := candidates_length hits l
+  have h2 : l.length ≤ maxrange := by
+    simp only [C09.iterNonceOffsets, PyFile.seekEnd] at h
+    rw [C09.seekRel_ok f f.data.length 0 f.data.length (by omega)] at h
+    exact nonceLoop_length _ _ _ _ _ _ h
+  omega
 
 /-- settings decoding consumes at least 6 bytes per setting: at most `|block| / 6` settings (C02 `parse_sound` gives the
 exact characterisation; here only the count) -/
